@@ -319,7 +319,7 @@ def decide(pid, tier, seed):
     t0 = time.time()
     known = load_known()
     global STREAM_TIMEOUT
-    STREAM_TIMEOUT = 300 if tier == "quick" else 10800
+    STREAM_TIMEOUT = 1200 if tier == "quick" else 10800
     with Lock():
         problems = build_all(need_engine=spec.get("need_engine", False))
         th = tree_hash()
